@@ -38,6 +38,10 @@ Theorem C08_sole_empty_reclaims_whole_allocation : forall orc n k o c kd s e x' 
   (match kd with MVec _ => True | MArc => exists oc, s_ctrl st = CSharedV (s_size st) oc 1 end) -> (n <= s_size st)%N -> (s_size st <= usize_max)%N ->
   m_try_reclaim orc n (HM k o 0 c kd) s e = OK (x', b) s1 e1 -> b = true /\ exists k1 o1 c1 kd1, x' = HM k1 o1 0 c1 kd1 /\ (n <= c1)%N.
 Proof. exact sole_empty_reclaims. Qed.
+Theorem C08_sole_empty_reclaims_reachable : forall orcs i s h orc n k o c kd e x' b s1 e1 st, reach orcs i s -> hs s !! h = Some (HM k o 0 c kd) -> sts s !! k = Some st ->
+  refs (hs s) k = 1%nat -> (n <= s_size st)%N -> (s_size st <= usize_max)%N ->
+  m_try_reclaim orc n (HM k o 0 c kd) s e = OK (x', b) s1 e1 -> b = true /\ exists k1 o1 c1 kd1, x' = HM k1 o1 0 c1 kd1 /\ (n <= c1)%N.
+Proof. exact sole_empty_reclaims_reachable. Qed.
 Print Assumptions C08_static_owned_never_unique.
 Print Assumptions C08_try_into_mut_err.
 Print Assumptions C08_try_into_mut_ok.
@@ -45,3 +49,4 @@ Print Assumptions C08_is_unique_iff_sole_holder.
 Print Assumptions C08_is_unique_iff_sole_holder_every_representation.
 Print Assumptions C08_unique_converts_in_place.
 Print Assumptions C08_sole_empty_reclaims_whole_allocation.
+Print Assumptions C08_sole_empty_reclaims_reachable.
